@@ -124,7 +124,7 @@ func licenseLiterals(p *core.Prog) []structLit {
 		if s, ok := core.ConstString(lit.fields["MatchType"]); ok && s == "Copyright" {
 			continue
 		}
-		out = append(out, lit)
+		out = append(out, expandLiteral(p, lit)...)
 	}
 	return out
 }
@@ -133,7 +133,7 @@ func spanLineRules(c *Ctx, p *core.Prog) {
 	for _, lit := range licenseLiterals(p) {
 		key := core.ShortFn(lit.fn) + ": license Match literal"
 		for _, pair := range [][2]string{{"StartLine", "StartTokenIndex"}, {"EndLine", "EndTokenIndex"}} {
-			ok, why := lineOfToken(lit.fields[pair[0]], lit.fields[pair[1]])
+			ok, why := lineOfToken(lit.fields[pair[0]], lit.fields[pair[1]], lit.subst)
 			c.R.Check(ok, "R03.3", key+": "+pair[0]+" is the line of the token at "+pair[1], p.Pos(lit.alloc.Pos()), why, why)
 		}
 	}
@@ -212,11 +212,13 @@ func runC01(c *Ctx) {
 	}
 	c.R.RequireMin("R01.2", "generateSearchSet call sites", ng, 1)
 
+	checkRunDetectorQ(c, p)
+
 	// R01.3 inclusive acceptance
 	for _, lit := range licenseLiterals(p) {
 		conf := lit.fields["Confidence"]
 		incl := false
-		for _, f := range core.FactsAtInstr(lit.alloc) {
+		for _, f := range lit.facts() {
 			if cmp, ok := f.AsCmp(); ok {
 				if cmp.Op == token.GEQ && cmp.X == conf && isThresholdLoad(cmp.Y) {
 					incl = true
@@ -349,8 +351,8 @@ func runC02(c *Ctx) {
 		si, ei := scCall.Call.Args[4], scCall.Call.Args[5]
 		wantS := core.LinOf(si, nil).Add(core.LinOf(so, nil), 1)
 		wantE := core.LinOf(ei, nil).Add(core.LinOf(eo, nil), -1).Add(core.Lin{Const: 1}, -1)
-		okS := so != nil && core.LinOf(lit.fields["StartTokenIndex"], nil).Equal(wantS)
-		okE := eo != nil && core.LinOf(lit.fields["EndTokenIndex"], nil).Equal(wantE)
+		okS := so != nil && core.LinOf(lit.fields["StartTokenIndex"], lit.subst).Equal(wantS)
+		okE := eo != nil && core.LinOf(lit.fields["EndTokenIndex"], lit.subst).Equal(wantE)
 		c.R.Check(okS && okE, "R02.2", core.ShortFn(lit.fn)+": the span is the scored range with the trimmed words removed at the matching ends", p.Pos(lit.alloc.Pos()),
 			"StartTokenIndex = start + leading, EndTokenIndex = end - trailing - 1", "the token span is not [start+leading trimmed, end-trailing trimmed-1]: the reported span differs from the text that was scored")
 	}
@@ -538,14 +540,7 @@ func runC06(c *Ctx) {
 	// R06.4 the scheme rewrite (in normalizeToken, or wherever it was inlined)
 	{
 		var sites []*ssa.Call
-		var fns []*ssa.Function
-		fb := p.Func(v2pkg, "flushBuf")
-		if nt := p.Func(v2pkg, "normalizeToken"); nt != nil {
-			fns = append(fns, nt)
-		}
-		if fb != nil {
-			fns = append(fns, fb)
-		}
+		fns := v2Funcs(p)
 		okAll, why := true, ""
 		for _, fn := range fns {
 			for _, call := range core.CallsIn(fn) {
@@ -594,26 +589,56 @@ func runC06(c *Ctx) {
 		c.R.Check(okAll, "R06.4", "every occurrence of the https scheme inside a token is rewritten, idempotently", pos, why, why+": a URL whose scheme is not at the start of the token (e.g. \"(https://...\") is not normalised")
 	}
 
-	// R06.5 token text provenance
-	if sl := p.Func(v2pkg, "stringifyLineBuf"); c.R.Anchor(sl != nil, "v2.stringifyLineBuf") {
+	// R06.5 token text provenance (by role: wherever cleanupToken is called)
+	if ct := p.Func(v2pkg, "cleanupToken"); c.R.Anchor(ct != nil, "v2.cleanupToken") {
 		n := 0
-		for _, call := range core.CallsIn(sl) {
-			cal := call.Common().StaticCallee()
-			if cal == nil || !(p.IsFn(cal, v2pkg, "(*dictionary).add") || p.IsFn(cal, v2pkg, "(*dictionary).getIndex")) {
-				continue
+		for _, fn := range v2Funcs(p) {
+			for _, call := range core.CallsIn(fn) {
+				cv, isCall := call.(*ssa.Call)
+				if !isCall || cv.Call.StaticCallee() != ct {
+					continue
+				}
+				n++
+				okPos := ascendingIndex(cv.Call.Args[0])
+				// the cleaned text must go straight to the dictionary (or to the caller), not into a cache
+				cached := false
+				for _, r := range *cv.Referrers() {
+					if mu, isMU := r.(*ssa.MapUpdate); isMU && mu.Value == ssa.Value(cv) {
+						cached = true
+					}
+				}
+				// the value finally interned for this token must be this call's result on every path: every phi it
+				// flows into may only merge it with other cleanupToken results / empty constants
+				mixed := ""
+				for _, r := range *cv.Referrers() {
+					if ph, isPhi := r.(*ssa.Phi); isPhi {
+						for _, e := range ph.Edges {
+							if e == ssa.Value(cv) {
+								continue
+							}
+							if _, isConst := e.(*ssa.Const); isConst {
+								continue
+							}
+							if ec, isC := e.(*ssa.Call); isC && ec.Call.StaticCallee() == ct {
+								continue
+							}
+							mixed = eng.Describe(e)
+						}
+					}
+				}
+				ok := okPos && !cached && mixed == ""
+				why := "cleanupToken(i, word, normalize) with i the index of the loop over the line's words; result used directly"
+				if !okPos {
+					why = "the position handed to cleanupToken is not the index of the loop over the line's words"
+				} else if cached {
+					why = "the result of cleanupToken is stored in a map keyed by something else than its position (a cache): list-marker removal depends on the position in the line, so a cached result is wrong for other positions"
+				} else if mixed != "" {
+					why = "the text interned for a token can come from " + mixed + " instead of cleanupToken at the token's own position (a cached or shared result)"
+				}
+				c.R.Check(ok, "R06.5", core.ShortFn(fn)+": the text interned for a token is cleanupToken(its position in the line, its word)", p.Pos(call.Pos()), why, why)
 			}
-			// only the lookups that produce token ids (their argument is the cleaned text)
-			txt := call.Common().Args[1]
-			if _, isParamWord := txt.(*ssa.Parameter); isParamWord {
-				continue
-			}
-			n++
-			ct, isCall := txt.(*ssa.Call)
-			ok := isCall && p.IsFn(ct.Call.StaticCallee(), v2pkg, "cleanupToken") && ascendingIndex(ct.Call.Args[0])
-			c.R.Check(ok, "R06.5", "stringifyLineBuf: the text interned for a token is cleanupToken(its position in the line, its word)", p.Pos(call.Pos()),
-				"dictionary lookup of cleanupToken(i, word, normalize) with i the loop index", "the interned text is not computed by cleanupToken at the token's own position ("+eng.Describe(txt)+"): list-marker removal depends on the position in the line, so a cached or shared result is wrong for other positions")
 		}
-		c.R.RequireMin("R06.5", "token interning sites", n, 1)
+		c.R.RequireMin("R06.5", "cleanupToken call sites", n, 1)
 	}
 
 	// R06.3 hyphenation flags survive refills
@@ -972,10 +997,8 @@ func checkNoTrailingDot(c *Ctx, p *core.Prog, ct *ssa.Function) {
 				}
 			}
 		}
-		if call, isCall := v.(*ssa.Call); isCall && core.StaticCalleeName(&call.Call) == "strings.TrimRight" {
-			if s, isS := core.ConstString(call.Call.Args[1]); isS && s == "." {
-				ok = true
-			}
+		if noTrailingDotValue(v, 0) {
+			ok = true
 		}
 		c.R.Check(ok, "R11.4", "cleanupToken: a number token cannot end in a dot", p.Pos(ret.Pos()), "returned only once strings.HasSuffix(res, \".\") is false", "a number can keep a trailing dot (e.g. \"2.0.\" from \"2.0..\"): Normalize writes it out and re-tokenising the normalised text strips one more dot, so Match(Normalize(x)) sees a different token than Match(x)")
 	}
@@ -1212,4 +1235,74 @@ func checkNormalizeEOLGuard(c *Ctx, p *core.Prog, nz *ssa.Function) {
 			"dominated by word != eol", "a token's text is written without the end-of-line test that the main loop applies: when that token is an end-of-line token (input starting with a blank or removed line) an extra newline is emitted and every following line of the output is shifted against the line numbers Match reports")
 	}
 	c.R.RequireMin("R11.5", "words written by Normalize", n, 1)
+}
+
+// checkRunDetectorQ: shared by C01 and C10 (rule id R01.2).
+func checkRunDetectorQ(c *Ctx, p *core.Prog) {
+	// the run detector works with the q the source search set was built with (clamped for short documents)
+	if fpm := p.Func(v2pkg, "(*Classifier).findPotentialMatches"); c.R.Anchor(fpm != nil, "v2.(*Classifier).findPotentialMatches") {
+		gm := p.Func(v2pkg, "(*Classifier).getMatchedRanges")
+		for _, call := range core.CallsIn(fpm) {
+			if gm == nil || call.Common().StaticCallee() != gm {
+				continue
+			}
+			args := call.Common().Args
+			src := fpm.Params[1]
+			okQ := false
+			for _, a := range args {
+				if ld, isLd := a.(*ssa.UnOp); isLd {
+					if fa, isFA := ld.X.(*ssa.FieldAddr); isFA && fa.X == ssa.Value(src) {
+						if bt, isB := ld.Type().Underlying().(*types.Basic); isB && bt.Kind() == types.Int {
+							okQ = true
+						}
+					}
+				}
+			}
+			c.R.Check(okQ, "R01.2", "findPotentialMatches: runs are detected with the source search set's own q", p.Pos(call.Pos()), "q argument is a field of the source search set", "the q handed to the run detector is not the (clamped) q the source document's q-grams were built with: for documents shorter than q, or thresholds close to 1, the window arithmetic works with a q that has nothing to do with the hashes")
+		}
+	}
+
+}
+
+// noTrailingDotValue: v cannot end in ".": strings.TrimRight(x, "."), a value returned under a failed
+// strings.HasSuffix(v, ".") test, or the result of an in-repo function all of whose returns are such values.
+func noTrailingDotValue(v ssa.Value, depth int) bool {
+	if depth > 3 {
+		return false
+	}
+	call, isCall := v.(*ssa.Call)
+	if !isCall {
+		return false
+	}
+	if core.StaticCalleeName(&call.Call) == "strings.TrimRight" {
+		if s, isS := core.ConstString(call.Call.Args[1]); isS && strings.Contains(s, ".") {
+			return true
+		}
+		return false
+	}
+	f := call.Call.StaticCallee()
+	if f == nil || !core.InRepo(f) || len(f.Blocks) == 0 {
+		return false
+	}
+	n := 0
+	for _, b := range f.Blocks {
+		ret, ok := b.Instrs[len(b.Instrs)-1].(*ssa.Return)
+		if !ok || len(ret.Results) != 1 {
+			continue
+		}
+		n++
+		rv := ret.Results[0]
+		good := noTrailingDotValue(rv, depth+1)
+		for _, fct := range core.FactsAt(b) {
+			if hc, isC := fct.Cond.(*ssa.Call); isC && !fct.Truth && core.StaticCalleeName(&hc.Call) == "strings.HasSuffix" && hc.Call.Args[0] == rv {
+				if s, isS := core.ConstString(hc.Call.Args[1]); isS && s == "." {
+					good = true
+				}
+			}
+		}
+		if !good {
+			return false
+		}
+	}
+	return n > 0
 }
